@@ -18,6 +18,10 @@ theorem lemma_enter_active (fl : Bool) (s : St) (a : ExcId) (h : s.active = some
     enter (Sre.init fl) s = ⟨fl, some (s.heap.cls a), some a, s.heap.tb a⟩ := by
   simp [enter, capture, h, Sre.init]
 
+theorem lemma_enter_active_any (c : Sre) (s : St) (a : ExcId) (h : s.active = some a) :
+    enter c s = { c with type_ := some (s.heap.cls a), value := some a, tb := s.heap.tb a } := by
+  simp [enter, capture, h]
+
 theorem lemma_enter_reraise (fl : Bool) (s : St) : (enter (Sre.init fl) s).reraise = fl := by
   unfold enter capture; cases s.active <;> simp [Sre.init]
 
@@ -118,6 +122,14 @@ theorem exec_excInfo_restored (b : Body) (c : Sre) (s : St) : (exec b c s).st.ex
     · simp only []
       rw [ihl]
     · rfl
+  | enterCur body ih =>
+    simp only [exec]
+    rw [lemma_exitSre_excInfo]; exact ih _ _
+  | swallow body ih =>
+    simp only [exec]
+    split
+    · exact ih _ _
+    · exact ih _ _
 
 /-! ### the saved triple -/
 
@@ -161,6 +173,13 @@ theorem sre_saved_invariant (b : Body) (c : Sre) (s : St) (h : b.direct = false)
   | rwc x => simp [exec]
   | nestThen fl body late _ _ => simp only [exec]; split <;> simp
   | handleNestThen e fl body late _ _ => simp only [exec]; split <;> simp
+  | enterCur body _ => simp [Body.direct] at h
+  | swallow body ih =>
+    simp only [Body.direct] at h
+    simp only [exec]
+    split
+    · exact ih _ _ h
+    · exact ih _ _ h
 
 /-- a nested context never touches the enclosing one -/
 theorem sre_nest_leaves_outer (fl : Bool) (body : Body) (c : Sre) (s : St) :
@@ -396,6 +415,60 @@ theorem sre_late_force_after_except (fl : Bool) (body : Body) (c : Sre) (s : St)
   simp only [exec, hs1, hsh, exitSre, exitCtx, hok, hfl] at key hex ⊢
   exact ⟨key.1, key.2.1, hex⟩
 
+/-! ### a context object used again -/
+
+/-- **`__enter__` always captures.**  Entering a context object — new, or used before and left in any
+    state whatever (a saved first failure, a cleared value with the type still set, a switched-off flag)
+    — saves the exception being handled *now*, with its class and its traceback of now; only the `reraise`
+    attribute is kept from before. -/
+theorem sre_enter_recaptures (c : Sre) (s : St) (a : ExcId) (h : s.active = some a) :
+    (enter c s).value = some a ∧ (enter c s).tb = s.heap.tb a ∧ (enter c s).type_ = some (s.heap.cls a) ∧
+    (enter c s).reraise = c.reraise := by
+  simp [lemma_enter_active_any c s a h]
+
+/-- **sre_reuse_reraises_current.**  `with ctxt: body` on a context object in *any* previous state, for
+    every body without direct operations that completes with the flag on: the exception handled on THIS
+    entry comes out — the same object, with its own traceback under force_reraise / `__exit__` / scenario
+    — never anything an earlier use had saved.  Nothing is logged, no object is created. -/
+theorem sre_reuse_reraises_current (body : Body) (c : Sre) (s : St) (e₀ : ExcId)
+    (hact : s.active = some e₀) (hd : body.direct = false)
+    (hok : (exec body (enter c s) s).out = .ok)
+    (hfl : (exec body (enter c s) s).ctx.reraise = true) :
+    (exec (.enterCur body) c s).out = .raised e₀ ∧
+    (exec (.enterCur body) c s).st.heap.tb e₀ = [.scen, .sreExit, .sreForce] ++ s.heap.tb e₀ ∧
+    (exec (.enterCur body) c s).st.log = (exec body (enter c s) s).st.log ∧
+    (exec (.enterCur body) c s).st.heap.next = (exec body (enter c s) s).st.heap.next := by
+  have inv := sre_saved_invariant body (enter c s) s hd
+  have hen := lemma_enter_active_any c s e₀ hact
+  have hv : (exec body (enter c s) s).ctx.value = some e₀ := by rw [inv.2.1, hen]
+  have ht : (exec body (enter c s) s).ctx.tb = s.heap.tb e₀ := by rw [inv.2.2, hen]
+  have key := sre_exit_reraises_saved .scen (exec body (enter c s) s).ctx (exec body (enter c s) s).st e₀ hfl hv
+  rw [ht] at key
+  simp only [exec, hok]
+  exact ⟨key.1, key.2.1, key.2.2.2.1, key.2.2.2.2.2.1⟩
+
+/-- a reused context whose flag is off when the body completes raises nothing and changes nothing, and
+    keeps what it captured on this entry -/
+theorem sre_reuse_flag_off_silent (body : Body) (c : Sre) (s : St)
+    (hok : (exec body (enter c s) s).out = .ok)
+    (hfl : (exec body (enter c s) s).ctx.reraise = false) :
+    exec (.enterCur body) c s = ⟨(exec body (enter c s) s).st, (exec body (enter c s) s).ctx, .ok⟩ := by
+  simp [exec, exitSre, exitCtx, hok, hfl]
+
+/-- a reused context whose body raises logs the exception handled on THIS entry (iff the flag is on) -/
+theorem sre_reuse_body_raise_logs_current (body : Body) (c : Sre) (s : St) (e₀ e' : ExcId)
+    (hact : s.active = some e₀) (hd : body.direct = false)
+    (hr : (exec body (enter c s) s).out = .raised e') :
+    (exec (.enterCur body) c s).out = .raised e' ∧
+    (exec (.enterCur body) c s).st.log = (exec body (enter c s) s).st.log ++
+      (if (exec body (enter c s) s).ctx.reraise then [⟨some e₀, s.heap.tb e₀⟩] else []) := by
+  have inv := sre_saved_invariant body (enter c s) s hd
+  have hen := lemma_enter_active_any c s e₀ hact
+  have hv : (exec body (enter c s) s).ctx.value = some e₀ := by rw [inv.2.1, hen]
+  have ht : (exec body (enter c s) s).ctx.tb = s.heap.tb e₀ := by rw [inv.2.2, hen]
+  simp only [exec, exitSre, hr, hv, ht]
+  cases (exec body (enter c s) s).ctx.reraise <;> simp
+
 /-! ### outside the class of N1 nothing is invented -/
 
 /-- a context is *sound* when a cleared value comes with a cleared type (true of a new context, after
@@ -411,6 +484,8 @@ def Body.n1Free : Body → Bool
   | .rpoe _ b => b.n1Free
   | .nestThen _ b l => !(b.forceCaught false) && b.n1Free && !(l.forceCaught false) && l.n1Free
   | .handleNestThen _ _ b l => !(b.forceCaught false) && b.n1Free && !(l.forceCaught false) && l.n1Free
+  | .enterCur b => b.n1Free
+  | .swallow b => b.n1Free
   | _ => true
 
 /-- `h'` has every object of `h` with its class, and the objects created in between are only the
@@ -450,8 +525,11 @@ theorem lemma_ext_fresh (s : St) (cl : Cls) (cause : Option (Option ExcId)) (f :
     have : i = s.heap.next := by omega
     simpa [St.raiseFresh, Heap.alloc, Heap.through, Heap.setTb, this] using hc
 
-theorem lemma_enter_sound (fl : Bool) (s : St) : (enter (Sre.init fl) s).sound := by
-  unfold enter capture Sre.sound; cases s.active <;> simp [Sre.init]
+theorem lemma_enter_sound_any (c : Sre) (s : St) : (enter c s).sound := by
+  unfold enter capture Sre.sound; cases s.active <;> simp
+
+theorem lemma_enter_sound (fl : Bool) (s : St) : (enter (Sre.init fl) s).sound :=
+  lemma_enter_sound_any _ s
 
 theorem lemma_force_ext (c : Sre) (s : St) (hc : c.sound) : Heap.ext s.heap (force c s).1.heap := by
   obtain ⟨rr, ty, v, tb⟩ := c
@@ -726,6 +804,29 @@ theorem lemma_no_invention (b : Body) : ∀ (uf : Bool) (c : Sre) (s : St),
       exact ⟨lemma_ext_trans h0 (lemma_ext_trans h.1 (lemma_ext_trans hx.1
         (lemma_ext_trans (lemma_ext_same _ _ rfl rfl) hl.1))), fun _ => hc⟩
 
+  | enterCur body ih =>
+    intro uf c s hf hn hc
+    simp only [Body.forceCaught, Bool.or_eq_false_iff] at hf
+    simp only [Body.n1Free] at hn
+    obtain ⟨rfl, hf2⟩ := hf
+    have h := ih false (enter c s) s hf2 hn (lemma_enter_sound_any c s)
+    have hx := lemma_exit_full .scen (exec body (enter c s) s).ctx (exec body (enter c s) s).st
+      (exec body (enter c s) s).out (fun ho => h.2 (Or.inr ho))
+    simp only [exec]
+    refine ⟨lemma_ext_trans h.1 hx.1, fun hh => ?_⟩
+    rcases hh with hh | hh
+    · simp at hh
+    · exact hx.2 hh
+  | swallow body ih =>
+    intro uf c s hf hn hc
+    simp only [Body.forceCaught] at hf
+    simp only [Body.n1Free] at hn
+    have h := ih true c s hf hn hc
+    simp only [exec]
+    split
+    · exact ⟨h.1, fun _ => h.2 (Or.inl rfl)⟩
+    · exact ⟨h.1, fun _ => h.2 (Or.inl rfl)⟩
+
 /-- **Nothing is invented outside the class of N1.**  For every program in which no
     `save_and_reraise_exception` body (at any nesting depth) contains a direct `force_reraise()` whose
     exception cannot leave that body, run from any state with a sound context: every exception object
@@ -940,6 +1041,14 @@ theorem exec_preserves_chain (b : Body) (c : Sre) (s : St) : Heap.kept s.heap (e
     · simp only []
       exact lemma_kept_trans h1 (ihl _ { ex.1 with excInfo := s.excInfo })
     · exact lemma_kept_trans h1 (lemma_kept_same _ _ rfl rfl rfl rfl)
+  | enterCur body ih =>
+    simp only [exec]
+    exact lemma_kept_trans (ih _ _) (lemma_exitSre_kept _ _ _ _)
+  | swallow body ih =>
+    simp only [exec]
+    split
+    · exact ih _ _
+    · exact ih _ _
 
 /-- in particular the original re-raised by `with save_and_reraise_exception()` (any body, any way the
     statement ends) still has its `__cause__` and `__suppress_context__` -/
@@ -1273,6 +1382,21 @@ example :
     (run true (.handleNestThen 0 false .nop (.forceReraise false)) demoState).st.heap.tb 0
       = [.scen, .sreForce, .scen, .prior 1, .prior 0] ∧
     (run true (.handleNestThen 0 false .nop .capture) demoState).out = .raised 3 := by
+  decide
+
+-- sre_reuse_*: one context object used for two failures (the first re-raise is swallowed, as in a retry
+-- loop): the second use re-raises E1, not E0 and not a new instance; after a first use with the flag
+-- switched off the second use is silent; a raising second body logs E1
+example :
+    (run true (.seq (.swallow (.handle 0 (.enterCur .nop))) (.handle 1 (.enterCur .nop))) demoState).out
+      = .raised 1 ∧
+    (run true (.seq (.swallow (.handle 0 (.enterCur .nop))) (.handle 1 (.enterCur .nop))) demoState).st.heap.tb 1
+      = [.scen, .sreExit, .sreForce, .scen] ∧
+    (run true (.seq (.swallow (.handle 0 (.enterCur .nop))) (.handle 1 (.enterCur .nop))) demoState).st.heap.next
+      = 3 ∧
+    (run true (.seq (.handle 0 (.enterCur (.setReraise false))) (.handle 1 (.enterCur .nop))) demoState).out = .ok ∧
+    (run true (.seq (.swallow (.handle 0 (.enterCur .nop))) (.handle 1 (.enterCur (.raiseNew 2)))) demoState).st.log
+      = [⟨some 1, [.scen]⟩] := by
   decide
 
 -- sre_capture_nothing_active / sre_force_raises_saved
